@@ -1306,3 +1306,25 @@ CONTRACTS[ST + 'random_bit_state'] = dict(
              'inv_state(result.gs, result.ps, result.r, N)'],
     modifies=[], returns=STATE,
 )
+
+# ------------------------------------------------------------------ C10: compiling a MAP gate fills in the missing direction with the inverse table
+_inv_e = CONTRACTS[ST + 'CliffordMap.inverse']['ensures'][:7]
+GATE_FWD_ONLY = {'cls': 'CliffordGate', 'fields': {'n': 'int', 'generator': 'none', 'forward_map': CMAP, 'backward_map': 'none'}}
+GATE_BWD_ONLY = {'cls': 'CliffordGate', 'fields': {'n': 'int', 'generator': 'none', 'forward_map': 'none', 'backward_map': CMAP}}
+CONTRACTS[CI + 'CliffordGate.compile#forward_only'] = dict(
+    params=[('self', GATE_FWD_ONLY)],
+    requires=[r.replace('self.', 'self.forward_map.') for r in CONTRACTS[ST + 'CliffordMap.inverse']['requires']],
+    # backward_map is the inverse table OF forward_map (inverse o forward = identity, strings and phases); forward_map is kept
+    ensures=[e.replace('result.', 'self.backward_map.').replace('self.gs', 'self.forward_map.gs').replace('self.ps', 'self.forward_map.ps') for e in _inv_e] +
+            ['same_loc(result, self)'],
+    may_raise=['ValueError'],
+    modifies=[], modifies_scalar=['self.backward_map'], returns='=self',
+)
+CONTRACTS[CI + 'CliffordGate.compile#backward_only'] = dict(
+    params=[('self', GATE_BWD_ONLY)],
+    requires=[r.replace('self.', 'self.backward_map.') for r in CONTRACTS[ST + 'CliffordMap.inverse']['requires']],
+    ensures=[e.replace('result.', 'self.forward_map.').replace('self.gs', 'self.backward_map.gs').replace('self.ps', 'self.backward_map.ps') for e in _inv_e] +
+            ['same_loc(result, self)'],
+    may_raise=['ValueError'],
+    modifies=[], modifies_scalar=['self.forward_map'], returns='=self',
+)
